@@ -924,13 +924,66 @@ def guards_of(fn, node):
         raise AnalysisBroken("no CFG for %s" % fn.name)
     fn.nodes
     cur = node
+    if cur.get("k") in ("SwitchStmt", "IfStmt", "WhileStmt") and cur.get("c") and cur["c"][0] is not None:
+        cur = cur["c"][0]     # control statements are not CFG elements; their condition is
     while cur is not None:
         if "i" in cur:
             sb = cfg.stmt_block(cur["i"])
             if sb is not None:
-                return cfg.guards(sb[0])
+                return _infer_guards(cfg.guards(sb[0]) + _ast_branch_guards(fn, node))
         cur = fn.parent(cur)
     return []
+
+
+def _ast_branch_guards(fn, node):
+    """being inside the then/else branch of an `if` implies its whole condition true/false (the CFG edges only give
+    the atoms that are decided on every path); unsound only if a label inside the branch is jumped to, which is excluded"""
+    out = []
+    cur = node
+    while cur is not None:
+        par = fn.parent(cur)
+        if par is not None and par.get("k") == "IfStmt" and len(par["c"]) >= 2:
+            for idx, pol in ((1, True), (2, False)):
+                br = par["c"][idx] if idx < len(par["c"]) else None
+                if br is not None and (br is cur):
+                    if not any(x.get("k") == "LabelStmt" for x in walk(br)):
+                        out.extend(_expand_guard(par["c"][0], pol, None))
+        cur = par
+    return out
+
+
+def _conjuncts(c, op):
+    c = strip(c)
+    if c is not None and c.get("k") == "BinaryOperator" and c.get("op") == op:
+        return _conjuncts(c["c"][0], op) + _conjuncts(c["c"][1], op)
+    return [c]
+
+
+def _infer_guards(gs):
+    """(A && B) false together with A true gives B false; (A || B) true together with A false gives B true"""
+    out = list(gs)
+    known = {norm_cond(g["cond"], g["pol"]) for g in gs if "pol" in g}
+    for g in gs:
+        if "pol" not in g:
+            continue
+        c = strip(g["cond"])
+        pol = g["pol"]
+        while c is not None and c.get("k") == "UnaryOperator" and c.get("op") == "!":
+            pol = not pol
+            c = strip(c["c"][0])
+        if c is None or c.get("k") != "BinaryOperator":
+            continue
+        if c.get("op") == "&&" and not pol:
+            parts = _conjuncts(c, "&&")
+            unknown = [p for p in parts if norm_cond(p, True) not in known]
+            if len(unknown) == 1:
+                out.append({"cond": unknown[0], "pol": False, "block": g.get("block")})
+        elif c.get("op") == "||" and pol:
+            parts = _conjuncts(c, "||")
+            unknown = [p for p in parts if norm_cond(p, False) not in known]
+            if len(unknown) == 1:
+                out.append({"cond": unknown[0], "pol": True, "block": g.get("block")})
+    return out
 
 
 def guard_texts(fn, node):
